@@ -1,11 +1,11 @@
 #!/bin/sh
 # usage: verify_seed.sh <prop> <k>   -- confirms a candidate from /tmp/wt/out/<prop>/ in a scratch worktree of /repo HEAD
 # and, if confirmed, stores it as /verif/seeded/<prop>-<k>/
-P=$1; K=$2; SRC=/tmp/wt/out/$P; WT=/tmp/wt/verify_$P_$K_$$
+P=$1; K=$2; BASE=${SRCBASE:-/tmp/wt}; TAG=${SEEDTAG:-}; SRC=$BASE/out/$P; WT=/tmp/wt/verify_${P}_${K}_$$
 git -C /repo worktree add -q --detach $WT HEAD || exit 2
 cd $WT
 DEMO=$SRC/demo$K.py
-sed "s#/tmp/wt/$P#$WT#g" $DEMO > $WT/_demo.py
+sed "s#$BASE/$P#$WT#g" $DEMO > $WT/_demo.py
 PYTHONPATH=$WT /venv/bin/python _demo.py >/tmp/wt/clean_$P_$K.log 2>&1; CLEAN=$?
 if ! git apply $SRC/patch$K.diff; then echo "$P-$K: patch does not apply"; cd /; git -C /repo worktree remove --force $WT; exit 1; fi
 TESTS=$(/venv/bin/python -m pytest -q -p no:cacheprovider 2>&1 | tail -1)
@@ -14,7 +14,7 @@ cd /; git -C /repo worktree remove --force $WT
 echo "$P-$K: clean_exit=$CLEAN patched_exit=$PATCHED tests: $TESTS"
 case "$TESTS" in *"1987 passed"*) ;; *) echo "  REJECTED (tests)"; exit 1;; esac
 if [ $CLEAN -ne 0 ] || [ $PATCHED -eq 0 ]; then echo "  REJECTED (demo)"; exit 1; fi
-D=/verif/seeded/$P-$K; mkdir -p $D
+D=/verif/seeded/$P-$TAG$K; mkdir -p $D
 cp $SRC/patch$K.diff $D/patch.diff; cp $DEMO $D/demo.py; cp $SRC/notes$K.md $D/notes.md 2>/dev/null
 python3 - <<PY
 import json
